@@ -172,6 +172,11 @@ bool Instance::parse_pretend_valid_expr(const char* expr) {
         }
         p = c = c + (*c != 0);
     }
+    if (got_sig) {
+        // "sig:" at the very end: a signature without its pubkey
+        fprintf(stderr, "parse error (missing pubkey after the last signature)\n");
+        return false;
+    }
     return true;
 }
 
